@@ -127,6 +127,9 @@ SEEDS = [
 REGRESSIONS = [
     "group:1 " * 125 + "pu:2", "group:1 " * 124 + "pu:2", "1 " * 125 + "2", "pack:2 pu:2(indexes=die)", "pack:2(indexes=core) core:2 pu:1",
     "pu:2(indexes=1*65536:1*65536:1*65536:1*65536)", "group:65536 group:65536 group:65536 core:65536 pu:1(indexes=core)",
+    "memcache:1 pu:2", "pack:2 memcache:1 pu:2", "node:2(memorysidecachesize=1MB) pu:2", "pack:2 [numa(memorysidecachesize=1MB)] pu:2",
+    "node:2(indexes=0,0) pu:2", "pack:2 [numa(indexes=0,0)] pu:2", "pack:2 [numa] [numa(indexes=1,2,3,1)] pu:1", "pu:3(indexes=0,1,1)",
+    "l3:3 l3:3 pu:1", "l2:2 core:1 l2:2 pu:1", "l1:2 l1d:2 pu:1", "l3:2 l3u:1 pu:2",
     "node:2(indexes=pu) pu:2", "pu:2(indexes=pu)", "pu:2(indexes=machine)", "pu:4(indexes=2*2:1*4)", "pu:4(indexes=0*2)", "pu:4(indexes=2*0)",
 ]
 OVERFLOW_PROBES = [      # set only (never loaded)
@@ -239,9 +242,12 @@ def hostile_strings(rng, n, model_texts):
         for _ in range(rng.choice([1, 1, 2, 4])):
             s = mutate(rng, s)
         res.append(s)
-    # drop duplicates, keep order
+    # drop duplicates, keep order; an index attribute on a level of billions of objects makes the parser allocate and fill
+    # an array of that size (tens of GB, minutes): resource exhaustion proportional to the described machine, not looked at
     seen, out = set(), []
     for s in res:
+        if b"indexes" in s.lower() and arity_product(s) > 10000000:
+            continue
         if s not in seen:
             seen.add(s)
             out.append(s)
@@ -286,7 +292,7 @@ def jobs_for(tier, seed):
         J.append(job("sim3", maxlv=3, minlv=2, arities=(1, 2, 3), maxpu=12, maxatt=3, style=(style + 1) % 3 + 1, variants=(0, 1, 2, 3), workers=2, simulate="num=400", depth=12))
         J.append(job("simu", family="untyped", maxlv=4, minlv=1, arities=(1, 2, 3), maxpu=24, maxatt=2, variants=(0,), idx=("none", "list", "loops"),
                      perturbs=("none", "cpu"), workers=1, simulate="num=200", depth=12))
-        for k in (123, 124, 125, 126):
+        for k in (124, 125, 126):
             J.append(job("deep%d" % k, maxlv=1, style=style, deep=k, variants=(0,), idx=("none", "list"), alphabet=[1, 14], workers=1, **deep_kw))
         J.append(job("deepu", family="untyped", maxlv=1, deep=124, variants=(0,), idx=("none",), workers=1, **deep_kw))
     else:
@@ -304,6 +310,7 @@ def jobs_for(tier, seed):
         for k in (124, 125, 126):
             J.append(job("deepb%d" % k, maxlv=2, style=(k % 3) + 1, deep=k, variants=(0,), idx=("none", "types"), alphabet=[1, 14], workers=2, **deep_kw))
             J.append(job("deepu%d" % k, family="untyped", maxlv=2, deep=k, variants=(0,), idx=("none",), workers=1, **deep_kw))
+    J.sort(key=lambda c: 0 if c["deep"] else 1)      # the boundary jobs are the slowest per state: start them first
     return J
 
 
@@ -332,7 +339,7 @@ def run(ctx, replay=None):
     rng = random.Random(ctx.seed)
     J = jobs_for(ctx.tier, ctx.seed)
     items = []
-    with cf.ThreadPoolExecutor(max_workers=4) as ex:
+    with cf.ThreadPoolExecutor(max_workers=5) as ex:
         for res in ex.map(lambda c: run_job(ctx, c), J):
             items += res
     if not items:
@@ -345,7 +352,7 @@ def run(ctx, replay=None):
             seen.add(key)
             uniq.append(it)
     items = uniq
-    cap = 60000 if thorough else 4000
+    cap = 50000 if thorough else 4000
     if len(items) > cap:
         deep = [it for it in items if it.get("deep")]
         rest = [it for it in items if not it.get("deep")]
@@ -354,13 +361,13 @@ def run(ctx, replay=None):
         ctx.notes.append("model behaviours capped at %d (seeded sample of the striped enumeration; the boundary family is kept whole)" % cap)
     # known finding C07-noext-cache is looked at in a few dedicated behaviours only (each one is rejected and replayed)
     withcache = [it for it in items if has_cache(it["d"]) and not it["pert"]]
-    for it in rng.sample(withcache, min(len(withcache), 24 if thorough else 8)):
+    for it in rng.sample(withcache, min(len(withcache), 16 if thorough else 4)):
         it["noext"] = True
     behs = []
     for k, it in enumerate(items):
         behs += model_behaviours(it, k)
     n_model = len(behs)
-    hs = hostile_strings(rng, 12000 if thorough else 2500, [it["text"] for it in rng.sample(items, min(len(items), 400))])
+    hs = hostile_strings(rng, 12000 if thorough else 2200, [it["text"] for it in rng.sample(items, min(len(items), 400))])
     for s in hs:
         behs.append(hostile_behaviour(s))
     ctx.samples = [behs[0], behs[n_model // 2], behs[n_model - 1], behs[n_model + len(hs) // 2], behs[-1]]
